@@ -66,6 +66,20 @@ fn gen_url(r: &mut Rng) -> String {
             s = b;
         }
     }
+    // a URL WITHOUT a path whose query (or fragment) holds what looks like an authority and a path:
+    // `https://host?u=me@host/ads&id=5` — the host of a URL ends at the first '/', '?' or '#'
+    if r.chance(1, 8) {
+        let h2 = if r.chance(2, 3) { host } else { r.pick(gen::HOSTS) };
+        let look = match r.below(4) {
+            0 => format!("u=me@{}/{}", h2, gen::segs(r, 1, 2).replace('^', "/").replace('*', "-").replace('?', "_")),
+            1 => format!("next=//{}/{}", h2, r.pick(gen::VOCAB)),
+            2 => format!("r=https://{}/", h2),
+            _ => format!("m=a:b@{}/", h2),
+        };
+        let sep = if r.chance(3, 4) { "?" } else { "#" };
+        let q = query(r);
+        return format!("{}{}{}{}{}", pre, sep, look, if q.is_empty() { "" } else { "&" }, q);
+    }
     match r.below(10) {
         0 => {}
         1 => {
@@ -304,6 +318,90 @@ fn dquery(r: &mut Rng) -> String {
     parts.join("&")
 }
 
+thread_local! { static TEXT_MISMATCH: std::cell::RefCell<Vec<String>> = std::cell::RefCell::new(vec![]); static TEXT_COUNTS: std::cell::Cell<(u64, u64, u64)> = std::cell::Cell::new((0, 0, 0)); }
+
+/// Does the removeparam rule `line` apply to the request, judged from the rule TEXT alone (reference
+/// ABP matcher for the pattern; documented semantics for the options: explicit positive types, else
+/// the removeparam default document / subdocument / xhr; negated types; domain= against the label
+/// suffixes of the initiator)?  None: the line uses something outside this reading (party options,
+/// tags, /regex/ and the spellings whose ABP reading is not fixed), or the request has no initiator.
+fn ref_rule_applies(line: &str, req: &Request, src: &str) -> Option<bool> {
+    use adblock::request::RequestType as RT;
+    use implrun::refmatch::{host_start, reference, split, host_cut};
+    if line.starts_with("@@") {
+        return None;
+    }
+    let (pat, opts) = match line.rfind('$') { Some(i) => (&line[..i], &line[i + 1..]), None => (line, "") };
+    let (mut pos, mut neg, mut dpos, mut dneg): (Vec<RT>, Vec<RT>, Vec<String>, Vec<String>) = (vec![], vec![], vec![], vec![]);
+    for o in opts.split(',') {
+        let (n, name) = match o.strip_prefix('~') { Some(x) => (true, x), None => (false, o) };
+        let t = match name {
+            "xhr" | "xmlhttprequest" => Some(RT::Xmlhttprequest),
+            "document" | "doc" if !n => Some(RT::Document),
+            "subdocument" | "frame" => Some(RT::Subdocument),
+            "script" => Some(RT::Script),
+            "image" => Some(RT::Image),
+            _ => None,
+        };
+        if let Some(t) = t {
+            if n { neg.push(t) } else { pos.push(t) }
+        } else if let Some(ds) = o.strip_prefix("domain=") {
+            for d in ds.split('|') {
+                match d.strip_prefix('~') { Some(x) => dneg.push(x.to_ascii_lowercase()), None => dpos.push(d.to_ascii_lowercase()) }
+            }
+        } else if o.starts_with("removeparam=") {
+        } else {
+            return None;
+        }
+    }
+    // types
+    let allowed: Vec<RT> = if pos.is_empty() { vec![RT::Document, RT::Subdocument, RT::Xmlhttprequest] } else { pos };
+    let type_ok = allowed.contains(&req.request_type) && !neg.contains(&req.request_type);
+    // initiator
+    if !dpos.is_empty() || !dneg.is_empty() {
+        let a = src.find("://")? + 3;
+        let end = src[a..].find(|c| c == '/' || c == '?' || c == '#').map(|i| a + i).unwrap_or(src.len());
+        let auth = &src[a..end];
+        let auth = auth.rsplit('@').next().unwrap_or(auth);
+        let host = auth.split(':').next().unwrap_or(auth).to_ascii_lowercase();
+        if host.is_empty() || !host.is_ascii() {
+            return None;
+        }
+        let under = |d: &String| host == *d || host.ends_with(&format!(".{}", d));
+        if (!dpos.is_empty() && !dpos.iter().any(under)) || dneg.iter().any(under) {
+            return Some(false);
+        }
+    }
+    // pattern
+    let sp = split(pat);
+    let core = sp.body.to_ascii_lowercase();
+    let pat_ok = if pat.is_empty() || pat == "*" {
+        true
+    } else {
+        if !pat.is_ascii() || core.is_empty() || core.contains("^^") || core.contains('$') || core.starts_with('*') || core.ends_with('*')
+            || (core.starts_with('/') && core.ends_with('/') && core.len() > 1) {
+            return None;
+        }
+        match sp.left {
+            1 if matches!(core.as_str(), "ws://" | "http://" | "https://" | "http*://") => return None,
+            2 => {
+                let cut = host_cut(&core);
+                if core[..cut].trim_start_matches("www.").is_empty() || (sp.right && (core.ends_with('^') || core.contains('*'))) || cut == core.len() && sp.right {
+                    return None;
+                }
+            }
+            _ => {}
+        }
+        let url_lc = req.url.to_ascii_lowercase();
+        let hs = host_start(req)?;
+        reference(pat, url_lc.as_bytes(), req.hostname.as_bytes(), hs)?
+    };
+    if !(req.is_http || req.is_https) {
+        return None;
+    }
+    Some(type_ok && pat_ok)
+}
+
 fn eval(rules: &[String], url: &str, src: &str, ty: &str, mode: usize, batch: usize) -> Option<(Vec<String>, bool, Option<String>, String)> {
     // the per-rule scan below sees the initiator: the request carries the source hostname
     let req = Request::new(url, src, ty).ok()?;
@@ -316,7 +414,16 @@ fn eval(rules: &[String], url: &str, src: &str, ty: &str, mode: usize, batch: us
             use adblock::filters::network::NetworkFilterMaskHelper;
             if f.is_removeparam() && !f.is_badfilter() {
                 let mut rm = RegexManager::default();
-                if f.matches(&req, &mut rm) {
+                let hit = f.matches(&req, &mut rm);
+                // the crate's matcher against the reading of the rule text
+                let judged = ref_rule_applies(line, &req, src);
+                TEXT_COUNTS.with(|c| { let (a, b, d) = c.get(); c.set(match judged { Some(true) => (a + 1, b, d), Some(false) => (a, b + 1, d), None => (a, b, d + 1) }) });
+                if let Some(want) = judged {
+                    if want != hit {
+                        TEXT_MISMATCH.with(|m| m.borrow_mut().push(format!("the rule {:?} {} the {:?} request {} from {:?} by its text, but NetworkFilter::matches says {}", line, if want { "applies to" } else { "does not apply to" }, req.request_type, req.url, src, hit)));
+                    }
+                }
+                if hit {
                     // the parameter name as written in the rule, not as stored by the parser
                     if let Some(n) = option_value(line, &["removeparam"]) {
                         names.push(n);
@@ -374,6 +481,13 @@ fn main() {
         if got != want {
             sm.failure(None, &format!("rewritten_url {:?} but the specification gives {:?}", got, want), desc.clone());
         }
+        for m in TEXT_MISMATCH.with(|m| std::mem::take(&mut *m.borrow_mut())) {
+            sm.oracle_evaluations += 1;
+            let mut d = desc.clone();
+            d["text_reading"] = json!(true);
+            sm.failure(None, &m, d);
+        }
+        cs.stat("rules_judged_by_text");
         let key_hit = names.iter().any(|nm| orig.contains(&format!("{}=", nm)));
         cs.stat(if got.is_some() { "rewritten" } else if names.is_empty() { "no_matching_rule" } else { "matching_rule_no_rewrite" });
         if imp { cs.stat("important") }
@@ -425,6 +539,11 @@ fn main() {
             let desc = json!({"rules": rules, "url": url, "source": src, "type": ty, "mode": mode, "batch": batch, "order": dc.order, "matching_names": names, "important": imp, "impl": got});
             if got != want {
                 sm.failure(None, &format!("rewritten_url {:?} but the specification gives {:?} (removeparam rules with domain lists, loading mode {} batch {})", got, want, mode, batch), desc.clone());
+            }
+            for m in TEXT_MISMATCH.with(|m| std::mem::take(&mut *m.borrow_mut())) {
+                let mut d = desc.clone();
+                d["text_reading"] = json!(true);
+                sm.failure(None, &m, d);
             }
             // does a rule with a domain list match this initiator (per-rule scan)
             let multi = rules.iter().filter_map(|l| implrun::net::parse_net(l).map(|f| (l, f))).any(|(l, f)| {
@@ -488,6 +607,7 @@ fn main() {
             }
         }
     }
+    { let (a, b, d) = TEXT_COUNTS.with(|c| c.get()); sm.extra.insert("removeparam_rules_judged_by_text".into(), json!({"applies": a, "does_not_apply": b, "outside_the_reading": d})); }
     cs.finish();
     sm.write(&a.out, &cs);
 }
